@@ -164,12 +164,17 @@ class FileDataPdu(AbstractPduBase):
 
     @segment_metadata.setter
     def segment_metadata(self, segment_metadata: Optional[SegmentMetadata]):
+        old = self._params.segment_metadata
         self._params.segment_metadata = segment_metadata
+        try:
+            self._calculate_pdu_data_field_len()
+        except ValueError:
+            self._params.segment_metadata = old
+            raise
         if segment_metadata is None:
             self._pdu_header.segment_metadata_flag = SegmentMetadataFlag.NOT_PRESENT
         else:
             self._pdu_header.segment_metadata_flag = SegmentMetadataFlag.PRESENT
-        self._calculate_pdu_data_field_len()
 
     @property
     def file_data(self):
@@ -177,8 +182,13 @@ class FileDataPdu(AbstractPduBase):
 
     @file_data.setter
     def file_data(self, file_data: bytes):
+        old = self._params.file_data
         self._params.file_data = file_data
-        self._calculate_pdu_data_field_len()
+        try:
+            self._calculate_pdu_data_field_len()
+        except ValueError:
+            self._params.file_data = old
+            raise
 
     def _calculate_pdu_data_field_len(self):
         pdu_data_field_len = 0
